@@ -185,16 +185,30 @@ func (op Tsp) Assembler(arch *Arch, words []string) (string, error) {
 		}
 	}
 
+	if result == "" {
+		return "", Prerror{"Unknown register name " + words[0]}
+	}
+
 	if partial, err := Process_number(words[1]); err == nil {
+		if len(partial) > int(locationBits) {
+			return "", Prerror{"Location outside limits"}
+		}
 		result += zeros_prefix(int(locationBits), partial)
 	} else {
 		return "", Prerror{err.Error()}
 	}
 
 	if partial, err := Process_number(words[2]); err == nil {
+		if len(partial) > 8 {
+			return "", Prerror{"Nice value outside limits"}
+		}
 		result += zeros_prefix(8, partial)
 	} else {
 		return "", Prerror{err.Error()}
+	}
+
+	for i := arch.Opcodes_bits() + int(arch.R) + int(locationBits) + 8; i < arch.Max_word(); i++ {
+		result += "0"
 	}
 
 	return result, nil
